@@ -29,6 +29,9 @@ RULE += (
 RULE += (
     ' Round 9: every JSON name declared under `properties` must be the source of exactly one property of the parsed element (root level); a directed family writes an object schema with renamed properties so that the parser goes over it more than once (one-element type list, allOf / anyOf / not next to `properties`); the inheritance family (base + subclass) joined the recipes.'
 )
+RULE += (
+    ' Round 10: number positions are also wrapped next to a trivial composition member (anyOf [S, true] / [S, {}], oneOf [S, false] / [false, S], allOf [S, true] / [{}, S] / [S]): S still builds the result and its declared names are read as S declares them.'
+)
 ASSUMPTIONS = [
     "for untyped (dict) results the governing element is not known to the walker: a member may be found under its JSON name or under the Python name of any property with that JSON name in the tree",
     "values of declared-but-omitted properties are C05's subject (only their presence is tolerated here)",
@@ -147,7 +150,16 @@ def number_position_cases(draw):
                                          {"allOf": [{"not": {"type": "null"}}]}, {"minimum": -(2 ** 90)}]))
         schema = {"type": "object", "title": "N", "properties": {"ab": declared}, "patternProperties": {"^a": num}}
         values, paths = [{"ab": ints[0]}, {"ab": ints[-1], "ac": ints[0]}], [["ab"], ["ac"]]
-    return {"mode": "number-positions", "schema": schema, "values": values, "paths": paths,
+    wrap = draw(st.sampled_from([None, None, None, "anyOf-then-true", "anyOf-then-empty", "oneOf-with-false", "oneOf-false-first",
+                                 "allOf-with-true", "allOf-true-first", "allOf-single"]))
+    if wrap is not None:
+        # next to a TRIVIAL member (true / {} / false) the schema above still builds the result: it is the first
+        # member of the anyOf to accept, the only one of the oneOf, the most specific one of the allOf
+        schema = {"anyOf-then-true": {"anyOf": [schema, True]}, "anyOf-then-empty": {"anyOf": [schema, {}]},
+                  "oneOf-with-false": {"oneOf": [schema, False]}, "oneOf-false-first": {"oneOf": [False, schema]},
+                  "allOf-with-true": {"allOf": [schema, True]}, "allOf-true-first": {"allOf": [{}, schema]},
+                  "allOf-single": {"allOf": [schema]}}[wrap]
+    return {"mode": "number-positions", "schema": schema, "values": values, "paths": paths, "wrap": wrap,
             "pipeline": draw(st.sampled_from(observe.PIPELINES))}
 
 
@@ -179,7 +191,9 @@ def number_position_predicate(case, stats):
                 if not isinstance(value, dict) or key not in value:
                     continue
                 by_source, _ = declared_names(element)
-                names = by_source.get(key, {key})
+                names = list(by_source.get(key, {key}))
+                if case.get("wrap"):
+                    names = [_image(key)] + names  # (the element is the composition: its member declares the names)
                 out = None
                 for n in names:
                     try:
